@@ -1,19 +1,13 @@
 """VHDX guest-content oracle, written from [MS-VHDX] section 2 (BAT interleaving, chunk ratio, payload block
-states, sector bitmap bit order). Independent of the implementation: a z3 term over the file UFs."""
+states, sector bitmap bit order). Independent of the implementation; runs on symbolic or concrete integers."""
 from __future__ import annotations
 
-import z3
-
-from symx import files
-from symx.core import S, bvval as V
+from oracles.mem import ite
+from symx import core
 
 MB = 1 << 20
 # payload block states
 NOT_PRESENT, UNDEFINED, ZERO, UNMAPPED, FULLY_PRESENT, PARTIALLY_PRESENT = 0, 1, 2, 3, 6, 7
-
-
-def zx(t):
-    return z3.ZeroExt(S.W - t.size(), t) if t.size() < S.W else t
 
 
 def geometry(block_size, sector_size):
@@ -23,42 +17,39 @@ def geometry(block_size, sector_size):
 
 
 def payload_index(blk, cr):
-    return blk + z3.UDiv(blk, V(cr))
+    return blk + blk // cr
 
 
 def bitmap_index(blk, cr):
-    c = z3.UDiv(blk, V(cr))
-    return (c + 1) * V(cr) + c
+    c = blk // cr
+    return (c + 1) * cr + c
 
 
-def guest_byte(g, bat_off, block_size, sector_size, has_parent, fname="img", parent="parent"):
-    """8-bit value of guest byte g (W-bit BV terms g, bat_off)."""
-    W64 = files.word_uf(fname, 8, "le")[0]
-    B = files.byte_uf(fname)[0]
-    P = files.opaque_uf(parent)[0]
+def guest_byte(g, bat_off, block_size, sector_size, mem, parent=None):
+    """value of guest byte g; parent: memory of the parent image or None"""
     spb, cr = geometry(block_size, sector_size)
-    s = z3.UDiv(g, V(sector_size))
-    blk = z3.UDiv(s, V(spb))
-    sib = z3.URem(s, V(spb))
-    e = W64(bat_off + V(8) * payload_index(blk, cr))
-    state = z3.Extract(2, 0, e)
-    mb = zx(z3.Extract(63, 20, e))
-    data = B(mb * V(MB) + sib * V(sector_size) + z3.URem(g, V(sector_size)))
-    zero = z3.BitVecVal(0, 8)
-    from_parent = P(g) if has_parent else zero
-    sbe = W64(bat_off + V(8) * bitmap_index(blk, cr))
-    sb_mb = zx(z3.Extract(63, 20, sbe))
-    bit = z3.URem(blk, V(cr)) * V(spb) + sib
-    bm_byte = B(sb_mb * V(MB) + z3.LShR(bit, V(3)))
-    present = z3.Extract(0, 0, z3.LShR(bm_byte, z3.Extract(7, 0, bit) & z3.BitVecVal(7, 8))) == z3.BitVecVal(1, 1)
-    return z3.If(state == FULLY_PRESENT, data,
-                 z3.If(state == NOT_PRESENT, from_parent,
-                       z3.If(state == PARTIALLY_PRESENT, z3.If(present, data, from_parent), zero)))
+    s = g // sector_size
+    blk = s // spb
+    sib = s % spb
+    e = mem.word(bat_off + 8 * payload_index(blk, cr), 8, "le")
+    state = e % 8
+    mb = e >> 20
+    data = mem.byte(mb * MB + sib * sector_size + g % sector_size)
+    from_parent = parent.byte(g) if parent is not None else 0
+    if parent is not None:
+        sbe = mem.word(bat_off + 8 * bitmap_index(blk, cr), 8, "le")
+        bit = (blk % cr) * spb + sib
+        bm = mem.byte((sbe >> 20) * MB + bit // 8)
+        present = ((bm >> (bit % 8)) & 1) == 1
+        partial = ite(present, data, from_parent)
+    else:
+        partial = 0
+    return ite(state == FULLY_PRESENT, data,
+               ite(state == NOT_PRESENT, from_parent,
+                   ite(state == PARTIALLY_PRESENT, partial, 0)))
 
 
 def valid_payload_state(st, differencing):
-    from symx import core
-
     ok = [st == NOT_PRESENT, st == UNDEFINED, st == ZERO, st == UNMAPPED, st == FULLY_PRESENT]
     if differencing:
         ok.append(st == PARTIALLY_PRESENT)
